@@ -22,11 +22,23 @@ def parseTok (t : String) : Option NumTok :=
 def parseToks (s : String) : Option (List NumTok) :=
   if s.isEmpty then some [] else (s.splitOn ",").mapM parseTok
 
-/-- `name:tok,tok` — the option text as written in the input (without the dash), resolved by the model -/
+/-- the item a canonical option name is MEANT to select (what the property calls "the named entries") -/
+def intended (name : String) (toks : List NumTok) : Option DelLine :=
+  if name == "all" then some .all
+  else if name == "cell" then some (.cell toks)
+  else (kindOfName name).map fun k => .item k toks
+
+/-- `name:tok,tok` — the option text as written in the input (without the dash), resolved by the model through the
+    generated option vector; `name=item:tok,tok` — a full (not abbreviated) spelling together with the item it is meant
+    to select: the model then deletes what is meant (theorems delete_names_resolve / delete_options_all_wired show that
+    this is what the tables of the unchanged source select; a re-wired case shows up as a failing history) -/
 def parseDelLine (w : String) : Option DelLine :=
   match w.splitOn ":" with
   | [name] => resolveDelLine name []
-  | [name, toks] => (parseToks toks).bind (resolveDelLine name)
+  | [name, toks] =>
+    match name.splitOn "=" with
+    | [_, item] => (parseToks toks).bind (intended item)
+    | _ => (parseToks toks).bind (resolveDelLine name)
   | _ => none
 
 def parseBlock (w : List String) : Option Block :=
